@@ -463,7 +463,7 @@ class _Interp:
 
     def __init__(self, repo, special=None, fuel=20000):
         self.repo, self.special, self.fuel, self.depth = repo, special, fuel, 0
-        self._glob = {}
+        self._glob, self._gen = {}, {}
 
     # -- names ------------------------------------------------------------------------------------------------------------------------------------------
     def frame(self, mod, cls=None, self_value=None, **binds):
@@ -696,7 +696,9 @@ class _Interp:
             for p, d in list(zip(pos[len(pos) - len(func.args.defaults):], func.args.defaults)) + [(p, d) for p, d in zip(func.args.kwonlyargs, func.args.kw_defaults) if d is not None]:
                 if p.arg not in new:
                     new[p.arg] = self.val(d, self.frame(env["__mod__"]))
-            gen = _has(func.body, (ast.Yield, ast.YieldFrom))
+            gen = self._gen.get(id(func))
+            if gen is None:
+                gen = self._gen[id(func)] = _has(func.body, (ast.Yield, ast.YieldFrom))
             if gen:
                 new["__yield__"] = []
             kind, v = self.run(func.body, new)
@@ -926,9 +928,10 @@ class _ElemInterp(_Interp):
     """_Interp over representative schedule elements: iterating a parallel element yields its sub-tasks (Parallel.__iter__); reading an attribute that is a @property of the
     element's class runs the property (methods(element, name) -> (module, class, function) or None)"""
 
-    def __init__(self, repo, special=None, methods=None, fuel=20000):
+    def __init__(self, repo, special=None, methods=None, fuel=20000, live=False):
         super().__init__(repo, special, fuel)
         self.methods = methods
+        self.live = live  # loops run over the list object itself (what CPython does: a removal from the iterated list skips the next element), not over a snapshot
 
     def val(self, e, env):
         if isinstance(e, ast.Attribute) and self.methods is not None:
@@ -946,9 +949,36 @@ class _ElemInterp(_Interp):
     def iterable(self, v, node):
         if isinstance(v, _Elem):
             if v.iter_field is not None and isinstance(v.fields.get(v.iter_field), list):
-                return list(v.fields[v.iter_field])
+                return v.fields[v.iter_field] if self.live else list(v.fields[v.iter_field])
+            m_ = self.methods(v, "__iter__") if self.methods is not None and v.kind in ("leaf", "parallel") else None
+            if m_ is not None and m_[2] is not None:
+                r = self.invoke(m_[2], None, self.frame(m_[0], m_[1], v), True, argv={})  # Task.__iter__: `return iter([self])` - the leaf is its own only leaf
+                if isinstance(r, (list, tuple)):
+                    return list(r)
             raise minieval.CannotEval(f"iteration over {short(node, 40)} (a {v.kind})")
+        if self.live and isinstance(v, list):
+            return v
         return super().iterable(v, node)
+
+    def stmt(self, s, env):
+        # `<element>.remove_task(<leaf>)` / `<challenge>.remove_task(<element>)` as a statement: the method of the element's class is followed on the representative
+        if self.methods is not None and isinstance(s, ast.Expr) and isinstance(s.value, ast.Call) and isinstance(s.value.func, ast.Attribute) and not is_logging_stmt(s) \
+                and s.value.func.attr != "matches" and self.resolve(s.value, env) is None:
+            c = s.value
+            try:
+                recv = self.val(c.func.value, env)
+            except minieval.CannotEval:
+                recv = None
+            if isinstance(recv, _Elem) and recv.kind != "filter" and not any(isinstance(a, ast.Starred) for a in c.args) and not any(k.arg is None for k in c.keywords):
+                m_ = self.methods(recv, c.func.attr)
+                if m_ is not None and m_[2] is not None:
+                    try:
+                        argv = {p_: self.val(a_, env) for p_, a_ in source.bind_args(c, m_[2]).items()}
+                    except minieval.CannotEval as x:
+                        raise _CannotRun(f"`{short(c, 60)}`: argument not evaluable ({x})")
+                    self.invoke(m_[2], None, self.frame(m_[0], m_[1], recv), True, argv=argv)
+                    return None
+        return super().stmt(s, env)
 
 
 ELEMENT_CLASSES = {"Parallel": "parallel", "Task": "leaf"}  # the two classes of schedule elements (track.py, "Schedule elements")
@@ -1008,6 +1038,16 @@ def element_special(answer, methods=None):
                     return it.val(call.args[2], env)
                 raise _Raised(f"AttributeError ({short(call, 50)})")
             return _NOHOOK
+        if d in ("iter", "list", "tuple", "reversed") and len(call.args) == 1 and not call.keywords:
+            # the leaves of an element as a sequence (Parallel.__iter__ / Task.__iter__); iter() / reversed() of a list: the elements, eagerly
+            x = value(it, call.args[0], env)
+            if isinstance(x, _Elem) and x.kind in ("leaf", "parallel"):
+                items = list(it.iterable(x, call.args[0]))
+            elif d in ("iter", "reversed") and isinstance(x, (list, tuple)):
+                items = list(x)
+            else:
+                return _NOHOOK
+            return items[::-1] if d == "reversed" else (tuple(items) if d == "tuple" else items)
         if d == "map" and len(call.args) == 2 and not call.keywords:
             fn_ = call.args[0]
             seq = value(it, call.args[1], env)
@@ -1059,7 +1099,10 @@ def run(chk):
         "filters built and mode set, filter(v).matches(task) over a grid of tasks, list of three elements -> list after remove_task; the hook is analysed with the helpers "
         "extracted from it expanded in place: every site that can shrink a parallel element (remove_task or a filtering store) is followed by an emptiness test whose empty edge "
         "removes the element; the processor only removes (no stores on objects of the track - by data flow from the parameters -, no mutation while iterating, removal lists fresh "
-        "per challenge / element, an element is queued for removal under the match routine and nothing else); consumer agreement (driver reports one entry per step; client floor "
+        "per challenge / element, an element is queued for removal under the match routine and nothing else, the leaf pass is reached for every parallel element that still has "
+        "sub-tasks - conditions in front of it decided on parallel elements with 1 / 2 / 3 sub-tasks); the hook as a whole INTERPRETED on model schedules (two challenges, leaves and "
+        "parallel elements with 1 / 2 / 3 sub-tasks, probe filters with fixed answers, loops over the live lists) for both modes and a family of selections and compared with the "
+        "tasks the property keeps (same objects, same order, no emptied element, no field changed); consumer agreement (driver reports one entry per step; client floor "
         "of 1 for an emptied schedule); the removal of a leaf consults the leaf's completing role (completed-by), the attribute being derived from the track reader's data flow."
     )
     chk.not_decided = "an end-to-end race on the filtered track."
@@ -1953,13 +1996,45 @@ def run(chk):
     top_loops = [n for n in ast.walk(oaX) if isinstance(n, (ast.For, ast.comprehension)) and isinstance(n.target, ast.Name) and isinstance(strip_sel(n.iter), ast.Attribute) and strip_sel(n.iter).attr == "schedule"]
     top_vars = {n.target.id for n in top_loops}
 
+    oaX_defs = value_defs(oaX)
+
     def level(it):
         e = strip_sel(it)
         if isinstance(e, ast.Attribute) and e.attr == "schedule":
             return "top"
+        if isinstance(e, ast.Name) and e.id not in top_vars and e.id in oaX_defs:
+            # the leaves taken into a local first (`leaf_tasks = list(task)`), inside the loop over the schedule whose variable it reads
+            d_ = strip_sel(oaX_defs[e.id])
+            own = d_.value if isinstance(d_, ast.Attribute) and d_.attr == "tasks" else d_
+            if isinstance(own, ast.Name) and own.id in top_vars and any(isinstance(a, ast.For) and isinstance(a.target, ast.Name) and a.target.id == own.id for a in source.ancestors(oaX_defs[e.id])):
+                e = d_
         if isinstance(e, ast.Attribute) and e.attr == "tasks":
             e = e.value
         return "leaf" if isinstance(e, ast.Name) and e.id in top_vars else None
+
+    def admits_nonempty(f_, ev_):
+        """the sizes n in (1, 2, 3) of a parallel element `ev_` for which the condition is FALSE (client count derived / explicit); None if it is not evaluable on them"""
+        a2 = source.inline_node(f_, oaX_defs)
+        if mentions_match(a2) or not any(isinstance(x, ast.Name) and x.id == ev_ for x in ast.walk(a2)):
+            return None
+        out = set()
+        try:
+            for c_ in (_NOHOOK, 3):
+                for n_ in (1, 2, 3):
+                    try:
+                        p_ = parallel_with(n_, c_)
+                    except _CannotRun:
+                        if c_ is _NOHOOK:
+                            raise
+                        continue
+                    t_ = truth_on(a2, {ev_: p_})
+                    if t_ is None:
+                        return None
+                    if not t_:
+                        out.add(n_)
+        except _CannotRun:
+            return None
+        return sorted(out)
 
     def is_match_call(f_, lv):
         return isinstance(f_, ast.Call) and helper_of(f_) is fo and len(f_.args) == 1 and not f_.keywords and u(f_.args[0]) == lv
@@ -1991,12 +2066,18 @@ def run(chk):
         for f_ in _pat.fact_nodes(node, stop=tl, path_sensitive=True):
             neg = isinstance(f_, ast.UnaryOp) and isinstance(f_.op, ast.Not)
             core = f_.operand if neg else f_
-            kind_ = None if mentions_match(f_) else elem_test_kind(f_, ev_, value_defs(oaX))
+            kind_ = None if mentions_match(f_) else elem_test_kind(f_, ev_, oaX_defs)
             if (neg and is_match_call(core, ev_)) or kind_ in ("parallel", "nonempty"):
                 continue
-            if (not neg and is_match_call(core, ev_)) or kind_ == "leaf":
+            # any other condition on the element is decided on VALUES: it has to hold for every parallel element that still has sub-tasks (1, 2, 3 of them), since each of
+            # them may be selected for removal by a filter that leaves the element as a whole in place
+            shut = None if is_match_call(core, ev_) or kind_ == "leaf" else admits_nonempty(f_, ev_)
+            if shut == []:
+                continue
+            if (not neg and is_match_call(core, ev_)) or kind_ == "leaf" or shut:
                 chk.ob("O11.3", f"the leaves of every kept parallel element `{ev_}` are filtered", False, node,
-                       f"the leaf queue is only reached under `{u(f_)}`: parallel elements that stay keep leaves the filters select for removal",
+                       f"the leaf queue is only reached under `{u(f_)}`" + (f" (false for a parallel element with {' / '.join(map(str, shut))} sub-task(s))" if shut else "") +
+                       ": parallel elements that stay keep leaves the filters select for removal",
                        key=f"{_L}:TaskFilterTrackProcessor.on_after_load_track:leaf-queue-guard")
             else:
                 chk.unknown("O11.3", f"the leaf queue of `{ev_}` is reached under the unrecognised condition `{short(f_, 50)}`", node)
@@ -2072,6 +2153,121 @@ def run(chk):
         memo = [d_ for d_ in decs if d_.split(".")[-1] in ("lru_cache", "cache", "cached_property", "memoize")]
         chk.ob("O11.1", f"{cname}.matches is evaluated for every object (not memoised by value)", not memo, m_, "" if not memo else f"@{memo[0]}: the cache key uses __eq__/__hash__, which ignore tags",
                key=f"esrally/track/track.py:{cname}.matches:not-memoised")
+
+    # ---- the hook INTERPRETED end to end on model schedules (O11.3) ---------------------------------------------------------------------------------------------
+    # one challenge with the schedule [leaf, parallel(1), leaf, parallel(2), parallel(3)] built from representative elements, two probe filters, and for each mode a family of
+    # selections (nothing, everything, every single leaf, everything but one leaf, pairs inside the larger parallel elements): after the hook the schedule must consist of exactly
+    # the leaves the property keeps - the SAME objects, in their order, every parallel element holding its kept sub-tasks and dropped when none is kept -, and no other field of
+    # any element may have changed. The match decisions are the fixed answers of the probes (a parallel element matches iff one of its current sub-tasks does: O11.1 decides
+    # Parallel.matches itself); loops run over the live lists. Where the hook is not interpretable the rules above stand alone (advisory, no verdict).
+    SHAPES = ((None, 1, None, 2, 3), (-2, None))  # per challenge: None = a leaf, n = a parallel element with n sub-tasks, -n = the same with an explicit client count
+    NLEAF = sum(abs(n_ or 1) for sh in SHAPES for n_ in sh)
+
+    def sim_methods(e_, nm):
+        if e_.kind == "challenge":
+            c_ = trk.cls("Challenge")
+            return trk, c_, trk.methods(c_).get(nm)
+        return elem_methods(e_, nm)
+
+    def clone(e_, **over):
+        n_ = _Elem(e_.kind, e_.attrs, e_.iter_field)
+        n_.fields = dict(e_.fields, **over)
+        return n_
+
+    def subs_of(e_):
+        return e_.fields.get(e_.iter_field or "tasks")
+
+    def own_fields(e_):
+        return {a_: v_ for a_, v_ in e_.fields.items() if not (e_.kind == "parallel" and a_ == (e_.iter_field or "tasks"))}
+
+    def simulate(protos, exclude, selected):
+        """(expected, actual, changed fields) for one mode and one set of selected leaf indices; per challenge a schedule as [(element, sub-tasks or None)]"""
+        leaf_p, par_p, ch_attrs = protos
+        leaves = [clone(leaf_p, idx=i) for i in range(NLEAF)]
+        challenges, groups, elems, k = [], [], [], 0
+        for ci, sh in enumerate(SHAPES):
+            sched, grp = [], []
+            for n_ in sh:
+                if n_ is None:
+                    sched.append(leaves[k])
+                    grp.append((leaves[k], None))
+                    k += 1
+                else:
+                    el = clone(par_p[n_], **{par_p[n_].iter_field or "tasks": leaves[k:k + abs(n_)]})
+                    sched.append(el)
+                    grp.append((el, leaves[k:k + abs(n_)]))
+                    k += abs(n_)
+            elems += sched
+            groups.append(grp)
+            challenges.append(_Elem("challenge", ch_attrs, None, name=f"model-{ci}", schedule=sched))
+        before = {id(e_): own_fields(e_) for e_ in leaves + elems}
+        model = minieval.Record(challenges=challenges, name="model")
+        probes = [_Elem("filter", idx=i) for i in range(2)]
+
+        def answer(e_, f_):
+            if e_.kind == "parallel":
+                return any(answer(l_, f_) for l_ in subs_of(e_))
+            return e_.fields["idx"] in selected and f_.fields["idx"] == e_.fields["idx"] % 2
+
+        it = _ElemInterp(repo, element_special(answer, sim_methods), sim_methods, fuel=100000, live=True)
+        me = minieval.Record(**it.class_consts(ldr, P))
+        st = states.get((not exclude, exclude))
+        if run_err is None and st is not None and st[0] != "raise" and mattr in st[2]:
+            me.fields.update({k_: v_ for k_, v_ in st[2].items() if not isinstance(v_, (list, dict, set))})
+            me.fields[mattr] = st[2][mattr]
+        elif mode_truth is not None:
+            me.fields[mattr] = mode_truth[exclude]
+        else:
+            raise _CannotRun(f"the meaning of self.{mattr} could not be derived from the constructor")
+        me.fields[fattr] = tuple(probes) if st is not None and isinstance(st[2].get(fattr), tuple) else probes
+        it.invoke(oa, None, it.frame(ldr, P, me), True, argv={tparam: model})
+        keep = lambda l_: (l_.fields["idx"] in selected) != exclude  # noqa: E731
+        expected = [[(e_, None if subs is None else [l_ for l_ in subs if keep(l_)]) for e_, subs in grp if (keep(e_) if subs is None else any(keep(l_) for l_ in subs))] for grp in groups]
+        actual = []
+        for ch in challenges:
+            now = ch.fields.get("schedule")
+            if not isinstance(now, list) or not all(isinstance(e_, _Elem) and e_.kind in ("leaf", "parallel") for e_ in now) or not all(isinstance(subs_of(e_), list) for e_ in now if e_.kind == "parallel"):
+                raise _CannotRun("the schedule / the sub-tasks are not lists of the model elements afterwards")
+            actual.append([(e_, list(subs_of(e_)) if e_.kind == "parallel" else None) for e_ in now])
+        changed = [(e_, a_) for e_ in leaves + elems for now_ in [own_fields(e_)] for a_ in sorted(set(before[id(e_)]) | set(now_))
+                   if a_ not in before[id(e_)] or a_ not in now_ or (before[id(e_)][a_] is not now_[a_] and before[id(e_)][a_] != now_[a_])]
+        return expected, actual, changed
+
+    def show_sched(scs):
+        return " | ".join("[" + ", ".join(f"t{e_.fields['idx']}" if subs is None else "(" + " ".join(f"t{l_.fields['idx']}" for l_ in subs) + ")" for e_, subs in sc) + "]" for sc in scs)
+
+    def same_sched(a, b):
+        return len(a) == len(b) and all(x[0] is y[0] and (x[1] is None) == (y[1] is None) and (x[1] is None or (len(x[1]) == len(y[1]) and all(p_ is q_ for p_, q_ in zip(x[1], y[1]))))
+                                        for x, y in zip(a, b))
+
+    EVERY = set(range(NLEAF))
+    SELECTIONS = [set(), EVERY] + [{i} for i in range(NLEAF)] + [EVERY - {i} for i in range(NLEAF)] + [{3, 4}, {5, 6}, {6, 7}, {5, 7}, {1, 3, 5}, {0, 2}, {1, 4, 6}, {8, 9}, {1, 8}]
+    try:
+        par_p = {n_: parallel_with(n_) for n_ in (1, 2, 3)}
+        try:
+            par_p[-2] = parallel_with(2, 3)
+        except _CannotRun:
+            par_p[-2] = par_p[2]  # the constructor takes no explicit client count
+        protos = (representative("leaf"), par_p, element_model(trk, "Challenge")[0])
+        wrong_s = None
+        for exclude in (False, True):
+            for sel in SELECTIONS:
+                exp_, act_, chg_ = simulate(protos, exclude, sel)
+                what = (f"{'--exclude-tasks' if exclude else '--include-tasks'} selecting {{{', '.join(f't{i}' for i in sorted(sel))}}} in the challenges "
+                        "[t0, (t1), t2, (t3 t4), (t5 t6 t7)] | [(t8 t9), t10]")
+                if not (len(exp_) == len(act_) and all(same_sched(x, y) for x, y in zip(exp_, act_))):
+                    wrong_s = wrong_s or f"{what}: the hook leaves {show_sched(act_)}, the property demands {show_sched(exp_)}"
+                elif chg_:
+                    wrong_s = wrong_s or f"{what}: field `{chg_[0][1]}` of {chg_[0][0]!r} is changed by the hook"
+            if wrong_s:
+                break
+        chk.ob("O11.3", "the hook, interpreted on model schedules (two challenges; leaves, parallel elements with 1 / 2 / 3 sub-tasks, one with an explicit client count) for both modes and a "
+               "family of selections, leaves exactly the selected tasks: same objects, same order, no emptied parallel element, no field changed", wrong_s is None, oa,
+               wrong_s or f"{2 * len(SELECTIONS)} runs", key=f"{_L}:TaskFilterTrackProcessor.on_after_load_track:model-schedule")
+    except _Raised as e:
+        chk.adv("O11.3", f"the hook raises {e.text} on the model schedule: not decided by interpretation (the structural rules stand alone)", oa)
+    except (_CannotRun, minieval.CannotEval) as e:
+        chk.adv("O11.3", f"the hook is not interpretable on the model schedule ({e}): the structural rules stand alone", oa)
 
     # ---- O11.4 consumer agreement ----------------------------------------------------------------------------------------------------------------------------
     chk.rule("O11.4", "the driver can execute and report every remaining step: one progress entry per join point (C02/O2.1) and at least one client row even for an emptied schedule", 2,
@@ -2662,4 +2858,27 @@ VARIANTS += [
       "        total = 0\n        for challenge in track.challenges:\n            total += len(challenge.schedule)\n        self.logger.info(\"Filtering %d schedule elements.\", total)\n" + _OA),
     V("early return also for a track without challenges", "keep", _L, _EARLY, "        if len(self.filters) == 0 or not track.challenges:\n            return track\n"),
     V("early return when there ARE filters", "break", _L, _EARLY, "        if len(self.filters) >= 1:\n            return track\n", "O11.3"),
+]
+
+# ---- strengthening round 5 (seeded/C11-m14): the leaf pass reaches EVERY leaf of EVERY kept parallel element that still has sub-tasks. Conditions between the loop over the schedule
+# and the leaf queue are decided on values (parallel element with 1 / 2 / 3 sub-tasks, client count derived / explicit), the queue is also located when the leaves are taken into a
+# local first, and the hook as a whole is INTERPRETED on model schedules and compared with what the property keeps ----------
+_LQ = "                    for leaf_task in task:\n                        if self._filter_out_match(leaf_task):\n                            leafs_to_remove.append(leaf_task)\n"
+
+
+def _lq(guard=None, over="leaf_tasks", pre="                    leaf_tasks = list(task)\n", tail=""):
+    ind = "    " if guard else ""
+    return (pre + (f"                    if {guard}:\n" if guard else "") + f"{ind}                    for leaf_task in {over}:\n{ind}                        if self._filter_out_match(leaf_task):\n"
+            f"{ind}                            leafs_to_remove.append(leaf_task)\n" + tail)
+
+
+VARIANTS += [
+    V("seed m14: the leaf pass is skipped for elements with a single leaf", "break", _L, _LQ, _lq("len(leaf_tasks) > 1"), "O11.3"),
+    V("leaf pass only for parallel elements with more than one sub-task", "break", _L, _LQ, _lq("isinstance(task, Parallel) and len(task.tasks) > 1", over="task", pre=""), "O11.3"),
+    V("leaf pass only for elements with more than one client", "break", _L, _LQ, _lq("task.clients > 1", over="task", pre=""), "O11.3"),
+    V("leaf pass skips the first leaf of every element", "break", _L, _LQ, _lq(None, over="leaf_tasks[1:]"), "O11.3"),
+    V("leaf pass stops after the first leaf it queues", "break", _L, _LQ, _lq(None, over="task", pre="", tail="                            break\n"), "O11.3"),
+    V("leaves taken into a local first, no guard", "keep", _L, _LQ, _lq(None)),
+    V("leaves taken into a local first, pass guarded by `if leaf_tasks`", "keep", _L, _LQ, _lq("leaf_tasks")),
+    V("leaf pass guarded by a test that holds for every parallel element with sub-tasks", "keep", _L, _LQ, _lq("not isinstance(task, Parallel) or len(task.tasks) >= 1", over="task", pre="")),
 ]
